@@ -2,7 +2,7 @@
 
 Deciding monitors: reference calendar (datetime.date.toordinal, proleptic
 Gregorian) against ckl.date.to_oa_date / to_date on every calendar day of
-1900..9999 (thorough) and through interpreted `date(..) + n`, `- n`,
+0001..9999 (thorough) and through interpreted `date(..) + n`, `- n`,
 int()/decimal()/date() programs; an icontract postcondition on the real
 to_date (round trip back through to_oa_date) active during all of it."""
 import datetime
@@ -10,7 +10,7 @@ import datetime
 from cklmon import core
 from cklmon.core import observe
 
-RULE = ("days = every calendar day 1900-01-01..9999-12-31 (thorough, exhaustive) / every 1 Jan, 31 Dec, "
+RULE = ("days = every calendar day 0001-01-01..9999-12-31 (thorough, exhaustive) / every 1 Jan, 31 Dec, "
         "28 Feb, 29 Feb, 1 Mar of every year plus a stride sample (quick); per day: to_oa_date vs "
         "ordinal difference, to_date(to_oa_date(d)) == d, consecutive days differ by 1; programs: "
         "int/decimal(date) and date(number) inverse, (d+n)-n == d, (d+n)-d == n for boundary days x "
@@ -19,10 +19,21 @@ RULE = ("days = every calendar day 1900-01-01..9999-12-31 (thorough, exhaustive)
         "non-trivial; distinct by value")
 ASSUMPTIONS = [
     "reference = datetime.date.toordinal() - date(1899,12,30).toordinal()",
-    "results outside 1900..9999 are not representable and not asserted",
+    "results outside 0001-01-01..9999-12-31 are not representable (the host date type ends there) and not asserted",
+    "the text form of a date before the year 1000 is not asserted (dates are compared with ==)",
     "time of day is compared to the second (the statement's resolution)",
 ]
 EPOCH = datetime.date(1899, 12, 30).toordinal()
+FIRST, LAST = datetime.date(1, 1, 1), datetime.date(9999, 12, 31)
+MIN_NUM, MAX_NUM = FIRST.toordinal() - EPOCH, LAST.toordinal() - EPOCH      # -693593 .. 2958465
+
+
+def ymd(d):
+    return "%04d%02d%02d" % (d.year, d.month, d.day)
+
+
+def ymdhms(d):
+    return "%04d%02d%02d%02d%02d%02d" % (d.year, d.month, d.day, d.hour, d.minute, d.second)
 OFFSETS = [0, 1, 2, 28, 29, 30, 31, 59, 365, 366, 1461, 36524, 146097]
 SHARD_TIMEOUT = {"quick": 300, "thorough": 3000}
 
@@ -69,7 +80,7 @@ def dayclass(d):
         c = "mar1"
     else:
         c = "other"
-    return c + ("-pre1970" if d.year < 1970 else "")
+    return c + ("-pre1900" if d.year < 1900 else "-pre1970" if d.year < 1970 else "")
 
 
 class Contract:
@@ -90,8 +101,8 @@ class Contract:
 
         def roundtrips(oadate, result):
             mon.evaluations += 1
-            if not (isinstance(oadate, (int, float)) and 2 <= oadate < 2958466):
-                return True    # the statement is about representable dates (1900-01-01 .. 9999-12-31)
+            if not (isinstance(oadate, (int, float)) and MIN_NUM <= oadate < MAX_NUM + 1):
+                return True    # the statement is about representable dates (0001-01-01 .. 9999-12-31)
             try:
                 back = real_to_oa(result)
                 ok = abs(back - oadate) < 0.6 / 86400.0
@@ -171,9 +182,9 @@ def run_programs(spec, ctx):
     r = ctx.rng
     it, out = core.new_interpreter(secure=True, legacy=True)
     if spec["years"] == "sample":
-        years = list(range(1900, 2101, 1)) + [2400, 3000, 4000, 9998, 9999]
+        years = list(range(1890, 2101, 1)) + [2400, 3000, 4000, 9998, 9999, 1, 2, 4, 100, 400, 999, 1000, 1582, 1600, 1700, 1752, 1800]
     else:
-        years = list(range(1900, 2501)) + list(range(2501, 10000, 53)) + [9998, 9999]
+        years = list(range(1850, 2501)) + list(range(2501, 10000, 53)) + [9998, 9999] + list(range(1, 1850, 7)) + [999, 1000, 1582, 1600, 1752]
     years = [y for i, y in enumerate(years) if i % spec["of"] == spec["part"]]
 
     def ev(src):
@@ -190,16 +201,18 @@ def run_programs(spec, ctx):
         if got != want:
             ctx.violation("C17:%s:%s" % (key, cls), "%s evaluated to %s, calendar says %s" % (src, o.value, want), {"src": src})
 
-    lo, hi = datetime.date(1900, 1, 1).toordinal(), datetime.date(9999, 12, 31).toordinal()
+    lo, hi = FIRST.toordinal(), LAST.toordinal()
     for y in years:
         if y % 3 == 1:
             perturb(ctx, r, it)
         for d in boundary_days(y):
             cls = dayclass(d)
-            s = d.strftime("%Y%m%d") if d.year >= 1000 else None
+            s = ymd(d)
             num = d.toordinal() - EPOCH
             expect("int(date('%s'))" % s, str(num), "int-of-date", cls)
-            expect("string(date(%d))" % num, s + "000000", "date-of-int", cls)
+            if d.year >= 1000:
+                expect("string(date(%d))" % num, s + "000000", "date-of-int", cls)
+            expect("date(%d) == date('%s')" % (num, s), "TRUE", "date-of-int", cls)
             expect("date(int(date('%s'))) == date('%s')" % (s, s), "TRUE", "int-date-inverse", cls)
             expect("date(decimal(date('%s'))) == date('%s')" % (s, s), "TRUE", "decimal-date-inverse", cls)
             offs = r.sample(OFFSETS, 4) + [1]
@@ -210,9 +223,12 @@ def run_programs(spec, ctx):
                     if not (lo <= t <= hi):
                         continue
                     ctx.case(("arith", d.toordinal(), k))
-                    td = datetime.date.fromordinal(t).strftime("%Y%m%d")
+                    td = ymd(datetime.date.fromordinal(t))
                     op = "+ %d" % k if k >= 0 else "- %d" % -k
-                    expect("string(date('%s') %s)" % (s, op), td + "000000", "add-days", cls)
+                    if t >= datetime.date(1000, 1, 1).toordinal():
+                        expect("string(date('%s') %s)" % (s, op), td + "000000", "add-days", cls)
+                    else:
+                        expect("(date('%s') %s) == date('%s')" % (s, op, td), "TRUE", "add-days", cls)
                     expect("(date('%s') %s) - %d == date('%s')" % (s, op, k, s) if k >= 0 else
                            "(date('%s') %s) + %d == date('%s')" % (s, op, -k, s), "TRUE", "add-sub-inverse", cls)
                     expect("(date('%s') %s) - date('%s')" % (s, op, s), str(k), "difference", cls)
@@ -248,12 +264,12 @@ def run_times(spec, ctx):
     for i in range(spec["n"]):
         if i % 5 == 2:
             perturb(ctx, r, it)
-        y = r.choice([1900, 1950, 1969, 1970, 1971, 2000, 2024, 2100, 5000, 9999])
+        y = r.choice([1000, 1582, 1752, 1899, 1900, 1950, 1969, 1970, 1971, 2000, 2024, 2100, 5000, 9999])
         dt = datetime.datetime(y, r.randint(1, 12), r.randint(1, 28), r.randint(0, 23), r.randint(0, 59), r.randint(0, 59))
         if r.random() < 0.05:
             # the first and the last representable day, any time of day
-            dt = dt.replace(year=r.choice([1900, 9999]))
-            dt = dt.replace(month=1, day=1) if dt.year == 1900 else dt.replace(month=12, day=r.choice([30, 31]))
+            dt = dt.replace(year=r.choice([1000, 1900, 9999]))
+            dt = dt.replace(month=1, day=1) if dt.year != 9999 else dt.replace(month=12, day=r.choice([30, 31]))
             y = dt.year
             ctx.count("edge_day_times")
         ctx.case(("time", dt.isoformat()))
@@ -271,10 +287,10 @@ def run_times(spec, ctx):
             # differences of dates that carry a time of day, aimed at day numbers where the spacing of doubles
             # changes (powers of two): (d + n) - d must still be exactly n
             p2 = r.choice([8192, 16384, 32768, 65536, 131072, 262144, 524288, 1048576, 2097152])
-            base = datetime.datetime.fromordinal(EPOCH + p2 - r.randint(0, 40))
+            base = datetime.datetime.fromordinal(EPOCH + r.choice([p2, p2, -p2 if p2 < 300000 else p2]) - r.randint(0, 40))
             d0 = base.replace(hour=r.randint(0, 23), minute=r.randint(0, 59), second=r.randint(0, 59))
             k = r.randint(1, 60)
-            s0 = d0.strftime("%Y%m%d%H%M%S")
+            s0 = ymdhms(d0)
             env = ckl.functions.Environment()
             o = observe(lambda: it.interpret("[(date('%s') + %d) - date('%s'), date('%s') - (date('%s') - %d), string((date('%s') + %d) - %d)]"
                                              % (s0, k, s0, s0, s0, k, s0, k, k), "c17", env), 3000000)
@@ -296,7 +312,7 @@ def run_times(spec, ctx):
             k = r.choice([1, 2, 7, 30, 365, 1000])
             if y == 9999:
                 k = 1 if (dt.month, dt.day) < (12, 28) else 0
-            k = min(k, (dt.date() - datetime.date(1900, 1, 1)).days)     # stay inside 1900-01-01 .. 9999-12-31
+            k = min(k, (dt.date() - FIRST).days)     # stay inside 0001-01-01 .. 9999-12-31
             src = "def nd = date(); [(hd + %d) - hd, hd - (hd - %d), (nd + %d) - nd, nd - (nd - %d)]" % (k, k, k, k)
             o = observe(lambda: it.interpret(src, "c17", env), 3000000)
             ctx.count("program_evaluations")
@@ -307,8 +323,8 @@ def run_times(spec, ctx):
                 ctx.violation("C17:difference-raises:subsecond", "%s with hd = %s -> %s" % (src, hd.isoformat(), core.safe_str(o.exc, 100)), {"dt": hd.isoformat()})
             elif str(o.value) != want:
                 ctx.violation("C17:difference:subsecond", "%s with hd = %s is %s, calendar says %s" % (src, hd.isoformat(), o.value, want), {"dt": hd.isoformat()})
-        if i % 20 == 0 or (y in (1900, 9999) and (dt.month, dt.day) in ((12, 31), (12, 30), (1, 1))):
-            s = dt.strftime("%Y%m%d%H%M%S")
+        if i % 20 == 0 or (y in (1000, 1900, 9999) and (dt.month, dt.day) in ((12, 31), (12, 30), (1, 1))):
+            s = ymdhms(dt)
             env = ckl.functions.Environment()
             k = r.choice([1, 7, 30, 365])
             if y == 9999:
@@ -335,13 +351,13 @@ def run_shard(spec, ctx):
     CONTRACT.install()
     kind = spec["kind"]
     if kind == "boundary":
-        for y in range(1900, 10000):
+        for y in range(1, 10000):
             if y % spec["of"] != spec["part"]:
                 continue
             for d in boundary_days(y):
                 check_day(ctx, d, None)
             # consecutive-day clause across the year end and the leap day
-            if ctx.tier == "quick" and y % 5 != 0 and y > 2100:
+            if ctx.tier == "quick" and y % 5 != 0 and (y > 2100 or y < 1850):
                 continue
             for a in (datetime.date(y, 12, 30), datetime.date(y, 2, 27)):
                 prev = check_day(ctx, a, None)
@@ -349,13 +365,13 @@ def run_shard(spec, ctx):
                     if a.toordinal() + k <= datetime.date.max.toordinal():
                         prev = check_day(ctx, datetime.date.fromordinal(a.toordinal() + k), prev)
     elif kind == "stride":
-        lo, hi = datetime.date(1900, 1, 1).toordinal(), datetime.date(9999, 12, 31).toordinal()
+        lo, hi = FIRST.toordinal(), LAST.toordinal()
         t = lo + ctx.rng.randrange(spec["stride"])
         while t <= hi:
             check_day(ctx, datetime.date.fromordinal(t), None)
             t += spec["stride"]
     elif kind == "all":
-        lo, hi = datetime.date(1900, 1, 1).toordinal(), datetime.date(9999, 12, 31).toordinal()
+        lo, hi = FIRST.toordinal(), LAST.toordinal()
         n = hi - lo + 1
         a = lo + n * spec["part"] // spec["of"]
         b = lo + n * (spec["part"] + 1) // spec["of"]
@@ -401,11 +417,11 @@ def finalize(merged, tier):
         reasons.append("to_date contract not live in some shard")
     if tier == "thorough":
         ranges = sorted(ex["range"] for spec, ex in merged["shard_docs"] if spec.get("kind") == "all" and "range" in ex)
-        lo, hi = datetime.date(1900, 1, 1).toordinal(), datetime.date(9999, 12, 31).toordinal()
+        lo, hi = FIRST.toordinal(), LAST.toordinal()
         full = bool(ranges) and ranges[0][0] == lo and ranges[-1][1] == hi + 1 and all(
             a[1] == b[0] for a, b in zip(ranges, ranges[1:]))
         extra["exhaustive"] = full
-        extra["exhaustive_space"] = "every calendar day 1900-01-01..9999-12-31 (%d days)" % (hi - lo + 1)
+        extra["exhaustive_space"] = "every calendar day 0001-01-01..9999-12-31 (%d days)" % (hi - lo + 1)
         if not full:
             reasons.append("calendar sweep incomplete")
     return extra, reasons
